@@ -535,7 +535,7 @@ def cases(tier, seed):
     for role in ('passive', 'active'):
         for how in ('peer', 'own'):
             out.append(dict(id='givenup-%s-%s' % (role, how), kind='givenup', role=role, how=how))
-    for idx in range(1500 if thorough else 24):
+    for idx in range(9000 if thorough else 24):
         out.append(dict(id='rand-%d' % idx, kind='rand', seed=seed * 7477 + idx, count=25))
     return out
 
